@@ -24,6 +24,7 @@ for patch in "$HERE"/mutants/${1:-*}.patch "$HERE"/seeded/${1:-*}/patch.diff; do
      echo "$name: DETECTED by $prop quick  ($(echo "$out" | grep -A1 '^VIOLATION' | grep class= | head -1 | sed 's/^ *//'))"; pass=$((pass+1))
   else
      echo "$name: MISSED by $prop quick (rc=$rc) $(echo "$out" | tail -2 | tr '\n' ' ')"; miss=$((miss+1))
+     mkdir -p /tmp/verif-sens-logs; echo "$out" > "/tmp/verif-sens-logs/$(echo "$name" | tr '/' '_').log"
   fi
 done
 echo "sensitivity: $pass detected, $miss missed"
